@@ -1,3 +1,4 @@
+import LentilVerif.Gen.SpectrumOps
 /-! Spectra of `lentil/radiometry.py` as lists of exact rationals (C13, C14, C15). Mathlib-free (core `Rat`), so the
 driver executes exactly these definitions; the proof files state theorems about them over `ℚ = Rat`. -/
 namespace Lentil.Spec
@@ -67,14 +68,14 @@ def crop (lo hi : Rat) (s : Spectrum) : Outcome :=
   match s.wave.head? with
   | none => (s, some .indexError)
   | some w0 =>
-    let s1 : Spectrum := if lo > w0 then
-        let m := s.wave.map (fun w => !decide (lo > w)); ⟨keepMask m s.wave, keepMask m s.value⟩
+    let s1 : Spectrum := if Gen.cropLowGuard lo w0 then
+        let m := s.wave.map (fun w => !Gen.cropDropLow lo w); ⟨keepMask m s.wave, keepMask m s.value⟩
       else s
     match s1.wave.getLast? with
     | none => (s1, some .indexError)
     | some wl =>
-      if hi < wl then
-        let m := s1.wave.map (fun w => !decide (hi < w)); (⟨keepMask m s1.wave, keepMask m s1.value⟩, none)
+      if Gen.cropHighGuard hi wl then
+        let m := s1.wave.map (fun w => !Gen.cropDropHigh hi w); (⟨keepMask m s1.wave, keepMask m s1.value⟩, none)
       else (s1, none)
 
 def maxL : List Rat → Option Rat
@@ -101,8 +102,8 @@ def trim (tol : Rat) (s : Spectrum) : Outcome :=
   match maxL s.value with
   | none => (s, none)
   | some m =>
-    if m ≤ 0 then (s, some .valueError) else
-    let p := fun v : Rat => decide (v / m > tol)
+    if Gen.trimRefuses m then (s, some .valueError) else
+    let p := fun v : Rat => Gen.trimAbove v m tol
     match firstIdx p s.value, lastIdx p s.value with
     | some a, some b => (⟨slice a b s.wave, slice a b s.value⟩, none)
     | _, _ => (s, some .indexError)
@@ -145,8 +146,8 @@ def pad (e0 e1 : Rat) (sampling : Option Rat) (edge : Bool) (vL vR : Rat) (s : S
   let dw : Option Rat := match sampling with | some d => some d | none => minDiff s.wave
   match dw, minL s.wave, maxL s.wave with
   | some d, some mn, some mx =>
-    let nl : Int := ((mn - e0) / d).ceil + 1
-    let nr : Int := ((e1 - mx) / d).ceil + 1
+    let nl : Int := Gen.padNLeft mn mx e0 e1 d
+    let nr : Int := Gen.padNRight mn mx e0 e1 d
     if nl < 0 then (s, some .valueError) else
     if nl = 0 then (s, some .indexError) else
     let left := (linspace e0 mn nl.toNat).dropLast
@@ -189,23 +190,23 @@ def run (s : Spectrum) : List Op → Spectrum
 
 /-- `Spectrum.integrate(start, end, method='trapz')` -/
 def integrate (s : Spectrum) (a b : Rat) : Rat :=
-  let m := s.wave.map (fun w => decide (a ≤ w) && decide (w ≤ b))
+  let m := s.wave.map (fun w => Gen.integrateKeeps a b w)
   trapz (keepMask m s.wave) (keepMask m s.value)
 
 def midpoints : List Rat → List Rat
-  | c0 :: c1 :: cs => (c0 + (c1 - c0) / 2) :: midpoints (c1 :: cs)
+  | c0 :: c1 :: cs => Gen.binMid c0 c1 :: midpoints (c1 :: cs)
   | _ => []
 
 /-- edges of the trapezoid bins: `symmetric` mirrors the first/last half-step outwards, `inside` stops at the centres -/
 def trapzEdges (symmetric : Bool) (c : List Rat) : List Rat :=
   match c, c.getLast?, (c.dropLast).getLast? with
   | c0 :: c1 :: _, some cl, some cp =>
-      (if symmetric then c0 - (c1 - c0) / 2 else c0) :: midpoints c ++ [if symmetric then cl + (cl - cp) / 2 else cl]
+      (if symmetric then Gen.binEndLo c0 c1 else c0) :: midpoints c ++ [if symmetric then Gen.binEndHi cp cl else cl]
   | _, _, _ => []
 
 /-- chained trapezoid rule: one bin per adjacent pair of edges -/
 def trapzBins : List Rat → List Rat → List Rat
-  | x0 :: x1 :: xs, f0 :: f1 :: fs => (1 / 2 * (f0 + f1) * (x1 - x0)) :: trapzBins (x1 :: xs) (f1 :: fs)
+  | x0 :: x1 :: xs, f0 :: f1 :: fs => Gen.trapzTerm x0 x1 f0 f1 :: trapzBins (x1 :: xs) (f1 :: fs)
   | _, _ => []
 
 def interleave : List Rat → List Rat → List Rat
@@ -225,7 +226,7 @@ def simpsPoints (symmetric : Bool) (c : List Rat) (intC : Bool := false) : List 
   let x := interleave c ((midpoints c).map tr)
   match c, c.getLast?, (c.dropLast).getLast? with
   | c0 :: c1 :: _, some cl, some cp =>
-    if symmetric then (c0 - (c1 - c0) / 2) :: x ++ [cl + (cl - cp) / 2]
+    if symmetric then Gen.binEndLo c0 c1 :: x ++ [Gen.binEndHi cp cl]
     else
       match x with
       | x0 :: x1 :: rest =>
@@ -239,7 +240,7 @@ def simpsPoints (symmetric : Bool) (c : List Rat) (intC : Bool := false) : List 
 /-- chained Simpson rule over consecutive triples -/
 def simpsBins : List Rat → List Rat → List Rat
   | x0 :: x1 :: x2 :: xs, f0 :: f1 :: f2 :: fs =>
-      ((x2 - x0) / 6 * (f0 + 4 * f1 + f2)) :: simpsBins (x2 :: xs) (f2 :: fs)
+      Gen.simpsTerm x0 x1 x2 f0 f1 f2 :: simpsBins (x2 :: xs) (f2 :: fs)
   | _, _ => []
 
 def sumL (l : List Rat) : Rat := l.foldl (· + ·) 0
